@@ -17,9 +17,10 @@ CONFIGS = {
     # identical feature unification to the baseline test build
     "ws": ["--workspace", "--lib"],
     # optional code the baseline never compiles: memory pool accounting, async parquet, encryption
-    "ext": ["--workspace", "--lib", "--features",
-            "arrow-buffer/pool,arrow-array/pool,arrow-data/pool,parquet/async,parquet/encryption,parquet/crc,parquet/object_store"],
+    "ext": ["-p", "arrow-buffer", "-p", "arrow-data", "-p", "arrow-array", "-p", "arrow-schema", "--lib", "--features",
+            "arrow-buffer/pool,arrow-array/pool,arrow-data/pool,arrow-array/ffi,arrow-data/ffi,arrow-schema/ffi"],
 }
+EXPECTED = {"ext": ["arrow_buffer", "arrow_data", "arrow_array", "arrow_schema"]}
 
 EXPECTED_CRATES = [
     "arrow", "arrow_arith", "arrow_array", "arrow_avro", "arrow_buffer", "arrow_cast", "arrow_cmp",
@@ -87,7 +88,7 @@ def extract(cfg="ws", repo=None, quiet=True):
         # keep the newest file per crate name (a changed Cargo.toml can change the stable id)
         if name not in files or os.path.getmtime(f) > os.path.getmtime(files[name]):
             files[name] = f
-    missing = [c for c in EXPECTED_CRATES if c not in files]
+    missing = [c for c in EXPECTED.get(cfg, EXPECTED_CRATES) if c not in files]
     if missing:
         raise SystemExit("FATAL: no fact file for crates %s (configuration %s)" % (missing, cfg))
     return {"cfg": cfg, "dir": facts, "files": files, "rebuilt": rebuilt, "extract_s": round(time.time() - t0, 2)}
